@@ -85,6 +85,9 @@ class Check:
                 tgt = rng.choice(arcs)
                 lp = os.path.dirname(tgt) + "/cur%d.%s" % (len(arcs), rng.choice(["jar", "zip"]))
                 world["nodes"].append({"path": lp, "type": "symlink", "target": os.path.basename(tgt)})
+            if rng.random() < 0.12:
+                # an archive whose own name is not valid UTF-8 (a Latin-1 name on a UTF-8 system): still an archive
+                world["nodes"].append({"path": d + "/caf\udce9." + rng.choice(["zip", "jar"]), "type": "file", "zip": {"members": gen_members(rng, 3)}})
             if rng.random() < 0.4:
                 world["nodes"].append({"path": d + "/hidden_zip.dat", "type": "file", "zip": {"members": gen_members(rng, 3)}})
             if rng.random() < 0.4:
@@ -159,7 +162,8 @@ class Check:
                     d = m.get("date", [2020, 1, 2, 3, 4, 6])
                     # the mode string is asserted when the archive stores a unix mode *with* file-type bits
                     mode = statmod.filemode(m["mode"]) if m.get("mode") is not None and (m["mode"] & 0o170000) else None
-                    out.append((("[%s] %s" % (apath, m["name"])).encode("utf-8"), ("[%s] %s" % (apath.rsplit("/", 1)[-1], m["name"])).encode("utf-8"),
+                    lz = lambda t_: t_.encode("utf-8", "surrogateescape").decode("utf-8", "replace").encode("utf-8")  # printed lossily
+                    out.append((lz("[%s] %s" % (apath, m["name"])), lz("[%s] %s" % (apath.rsplit("/", 1)[-1], m["name"])),
                                 str(size).encode(), b"true" if isdir else b"false", ("%04d-%02d-%02d %02d:%02d:%02d" % tuple(d)).encode(), mode.encode() if mode else None))
         return out
 
